@@ -558,13 +558,15 @@ impl<'a, 'b> Gen<'a, 'b> {
         }
         let n = self.t.below(6);
         for _ in 0..n {
-            match self.t.weighted(&[4, 3, 3, 3, 2, 2, 1]) {
+            match self.t.weighted(&[4, 3, 3, 3, 2, 2, 1, 1, 1]) {
                 0 => self.var_declaration(),
                 1 => self.typedef(),
                 2 => self.param_declaration(false),
                 3 => self.function_declaration(false),
                 4 => self.task_declaration(),
                 5 => self.class_declaration(),
+                7 => self.package_export(),
+                8 => self.dpi_more(),
                 _ => self.import_declaration(),
             }
         }
@@ -607,7 +609,11 @@ impl<'a, 'b> Gen<'a, 'b> {
         self.sym(";");
         let n = self.t.below(5);
         for _ in 0..n {
-            match self.t.weighted(&[5, 4, 2, 2, 1]) {
+            match self.t.weighted(&[5, 4, 2, 2, 1, 2]) {
+                5 => {
+                    // pure / extern constraint prototypes stay without a body here
+                    let _ = self.class_item_more();
+                }
                 0 => {
                     // class property
                     self.tag("class-property");
@@ -1184,8 +1190,9 @@ impl<'a, 'b> Gen<'a, 'b> {
 
     /// one small design element around one or two items of a family that full programs reach rarely
     pub fn focus_text(&mut self) {
-        let which = self.t.below(12);
+        let which = self.t.below(15);
         match which {
+            12 | 13 => self.description_more2(),
             0 => self.udp_declaration(),
             1 => self.config_declaration(),
             2 => self.checker_declaration(),
@@ -1208,6 +1215,7 @@ impl<'a, 'b> Gen<'a, 'b> {
                         7 | 8 => self.misc_module_item2(),
                         9 => self.enum_struct_variable(),
                         10 => self.generate_construct(1),
+                        14 => self.misc_module_item3(true),
                         _ => self.gate_instantiation(),
                     }
                 }
@@ -1228,7 +1236,8 @@ impl<'a, 'b> Gen<'a, 'b> {
             if before > 0 {
                 self.p.top_boundaries.push(before - 1);
             }
-            match self.t.weighted(&[10, 2, 2, 2, 2, 1, 1, 1, 1, 1, 1]) {
+            match self.t.weighted(&[10, 2, 2, 2, 2, 1, 1, 1, 1, 1, 1, 2]) {
+                11 => self.description_more2(),
                 8 => self.udp_declaration(),
                 9 => self.config_declaration(),
                 10 => self.checker_declaration(),
